@@ -98,6 +98,27 @@ def cases(tier, seed):
         add('$number(s)', {'s': ''.join(rng.choice(alpha) for _ in range(rng.randint(5, 8)))}, ('number',))
     for v in ['true', 'false', 'null', '[]', '{}', '"1e400"', '"-1e400"', '"1e-400"', '"0x10"', '"1_0"', '" 1"', '"1 "', '"Infinity"', '"NaN"', '"١٢"', '$sum', 'nothing', '[1]', '"00012"', '"-0"']:
         add('$number(%s)' % v, None, ('number',))
+    # grouping: every placement of separators in an integer part of up to 9 digit positions and in a fraction part of up
+    # to 5 (all subsets, quick: sampled), on numbers of 1..13 integer digits: regular placements repeat, irregular ones do not
+    def group_pics(width, mand):
+        for mask in range(1, 1 << (width - 1)):
+            digs = ['#'] * (width - mand) + ['0'] * mand
+            p = ''
+            for i, dch in enumerate(digs):
+                p += dch
+                if i < width - 1 and (mask >> (width - 2 - i)) & 1:
+                    p += ','
+            yield p
+    gp = [p for w in range(2, 10) for p in group_pics(w, 1)]
+    if tier == 'quick':
+        gp = rng.sample(gp, 260)
+    for pic in gp:
+        for x in (rng.sample([7, 42, 123, 1234, 12345, 123456, 1234567, 12345678, 123456789, 1234567890, 123456789012, 1234567890123, -9876543, 1234.5], 4)):
+            add('$formatNumber(%s, "%s")' % (x, pic), None, ('grouping',))
+    fgp = ['0.' + ''.join(d + (',' if (m >> i) & 1 else '') for i, d in enumerate('#####')).rstrip(',') for m in range(0, 16)] + ['#,##0.0,0#', '0.00,0', '0.#,#,#', '#,#0.0,00,0']
+    for pic in fgp:
+        for x in [0.123456, 1.5, 12345.678912, 0.1, -3.14159265]:
+            add('$formatNumber(%s, "%s")' % (x, pic), None, ('grouping', 'fraction'))
     # $formatNumber: valid pictures, mutated (invalid) pictures, options
     opts = ['', ', {"decimal-separator": ",", "grouping-separator": "."}', ', {"zero-digit": "٠"}', ', {"minus-sign": "−"}', ', {"percent": "pc", "per-mille": "pm"}', ', {"digit": "D", "pattern-separator": "|"}',
             ', {"exponent-separator": "x"}', ', {"infinity": "inf", "NaN": "nan"}', ', {"decimal-separator": "ab"}', ', {"unknown": "x"}', ', {"zero-digit": 5}', ', 5', ', {"decimal-separator": ""}']
@@ -122,5 +143,5 @@ def run(tier, seed, replay=None):
         'doubles from integers, decimal fractions with 0..6 digits incl. exact ties and their neighbours, powers of ten 1e-12..1e21, random bit patterns, 0, -0, negatives, the 2^52..2^53 region: '
         '$string, $number($string(x)) = x, $floor/$ceil/$abs/$sqrt/$power, $round with precisions -6..12 (ties exhaustively for small decimals), $formatBase with bases 0..40 incl. fractional; '
         '$number on all strings of length <= 3 (quick) / <= 4 (thorough) over {0,1,9,-,+,.,e,E,space,a} plus random longer ones; $formatNumber with pictures generated from the decimal-format grammar '
-        '(grouping, percent, per-mille, exponent, prefix/suffix, two sub-pictures, format options) and mutated into invalid ones; distinct = distinct (expression, input)',
+        '(grouping — every separator placement over up to 9 integer and 5 fraction positions —, percent, per-mille, exponent, prefix/suffix, two sub-pictures, format options) and mutated into invalid ones; distinct = distinct (expression, input)',
         cases, timeout_ms=3000)
